@@ -43,6 +43,8 @@ PGo(child)  == POp("go", "", NoV, <<>>, "", 0, child)
 PAdd(w, n)  == POp("add", "", NoV, <<>>, w, n, "")
 PWait(w)    == POp("wait", "", NoV, <<>>, w, 0, "")
 PExit       == POp("exit", "", NoV, <<>>, "", 0, "")
+\* a spawned goroutine that has not run yet (only when vsched makes goroutine starts scheduling points)
+PStart      == POp("start", "", NoV, <<>>, "", 0, "")
 
 Res(v, ok, idx) == [v |-> v, ok |-> ok, idx |-> idx]
 Plain == Res(NoV, TRUE, -1)
@@ -141,13 +143,18 @@ WgWait(p, o, A(_, _)) ==
   /\ o.op = "wait" /\ wg[o.w].n = 0
   /\ Finish1(p, A(p, Plain), ch, wg, Step("wait", p, "", "", o.w, -1, NoV, FALSE))
 
+\* a spawned goroutine begins to run: no effect on shared state
+Begin(p, o, A(_, _)) ==
+  /\ o.op = "start"
+  /\ Finish1(p, A(p, Plain), ch, wg, Step("start", p, "", "", "", -1, NoV, FALSE))
+
 \* one step of goroutine p
 GoStepOf(p, P(_), A(_, _), B(_, _)) ==
   /\ Live(p) /\ panicked = "no"
   /\ LET o == P(p) IN
        \/ SendBuf(p, o, A) \/ SendClosed(p, o) \/ Rendezvous(p, o, P, A)
        \/ RecvBuf(p, o, A) \/ RecvClosed(p, o, A)
-       \/ Close(p, o, A) \/ Spawn(p, o, A, B) \/ WgAdd(p, o, A) \/ WgWait(p, o, A)
+       \/ Close(p, o, A) \/ Spawn(p, o, A, B) \/ WgAdd(p, o, A) \/ WgWait(p, o, A) \/ Begin(p, o, A)
 
 GoNext(P(_), A(_, _), B(_, _)) == \E p \in Procs : GoStepOf(p, P, A, B)
 
@@ -160,7 +167,7 @@ CanStep(p, P(_)) ==
              \/ Len(ch[o.c].buf) < ch[o.c].cap
              \/ ch[o.c].cap = 0 /\ \E q \in Procs \ {p} : Live(q) /\ \E rc \in RecvCases(P(q)) : rc[2] = o.c
        \/ \E rc \in RecvCases(o) : IsChan(rc[2]) /\ (ch[rc[2]].buf # <<>> \/ ch[rc[2]].closed)
-       \/ o.op \in {"close", "go", "add"}
+       \/ o.op \in {"close", "go", "add", "start"}
        \/ o.op = "wait" /\ wg[o.w].n = 0
 Stuck(P(_)) == \A p \in Procs : ~CanStep(p, P)
 
